@@ -46,7 +46,7 @@ def step (s : St) (ws : List String) : Option (St × String) :=
     | none => bad
   | ["discard", n] => match parseInt n with
     | some n => let (rb', d) := rb.discard n
-                if 0 < n ∧ n.toNat < rb.buffered ∧ rb.size = 0 then none  -- `% 0`
+                if !rb.discardSafe n then none  -- `% 0`
                 else some ({ s with rb := rb' }, s!"n={d} err=nil" ++ stat rb')
     | none => bad
   | ["bytes"] => if rb.bytesSafe then some (s, s!"data={hexOfBytes rb.bytes}" ++ stat rb) else none
